@@ -588,11 +588,18 @@ def run(chk, ctx):
     # ---- method tables: implementation vs generated lists
     kind, val = ask(driver, 'c09.methods')
     impl_bin = [m for m in BINARY if m in dadi.Spectrum.__dict__]; impl_inp = [m for m in INPLACE if m in dadi.Spectrum.__dict__]
+    import inspect
+    impl_auto = [n for n, f in vars(dadi.Inference).items() if inspect.isfunction(f) and f.__module__ == dadi.Inference.__name__
+                 and 'model = model.fold()' in inspect.getsource(f)]
+    gen_auto = val[2].split(',') if kind == 'ok' and len(val) == 3 else []
     if kind == 'ok' and val[0].split(',') == impl_bin and val[1].split(',') == impl_inp and sorted(impl_bin) == sorted(BINARY) \
-       and sorted(impl_inp) == sorted(INPLACE) and val[2].split(',') == AUTOFOLD_FUNCS:
+       and sorted(impl_inp) == sorted(INPLACE) and sorted(gen_auto) == sorted(impl_auto) and set(AUTOFOLD_FUNCS) <= set(gen_auto):
         chk.k_ok('methods')
     else:
-        chk.k_bad('methods', {}, dict(binary=impl_bin, inplace=impl_inp), val, None)
+        chk.k_bad('methods', {}, dict(binary=impl_bin, inplace=impl_inp, autofold=impl_auto), val, None)
+    chk.assumptions += ['C09: `_total_per_entry` = index sum, `reverse_array` = reversal of every axis, `mask_corners` = flat[0], flat[-1], '
+                        'numpy.ma.mask_or, the Python meaning of the dunder method names and basic slicing are tied by correspondence (K) and by a '
+                        'literal-statement check in tools/gen_Fold.py, not by translation']
     n_fold = 40 if not thorough else 400
     n_arith = 6 if not thorough else 40
     # ---- fold / unfold / reverse / misid
@@ -675,7 +682,7 @@ def run(chk, ctx):
     orig_fold = dadi.Spectrum.fold
     def spy(self):
         calls.append(1); return orig_fold(self)
-    for fname in AUTOFOLD_FUNCS:
+    for fname in (gen_auto or AUTOFOLD_FUNCS):
         f = getattr(dadi.Inference, fname)
         for df in (False, True):
             for mf_ in (False, True):
